@@ -15,20 +15,24 @@
 EXTENDS ClientBatch, TLC, Json
 
 CONSTANTS NShardsSet, ReqLimits, ByteLimits, Lingers, DeadSets,
+          Tmos,          \* {FALSE}: the request timeout never fires; {TRUE}: it can (MaxExpire times)
           Templates,     \* call templates the application chooses from
-          MaxCalls, MaxFail, MaxBreak, MaxStream, NKeys,
+          MaxCalls, MaxFail, MaxBreak, MaxExpire, MaxStream, NKeys,
           Eager,
           Export         \* "none" | "steps" | "runs"
 
-VARIABLES nfail, nbreak, hist
-mvars == <<cfg, calls, q, cur, fly, ans, agg, done, res, sent, part, sst, emitted, wire, chn, gcl, fin, mrg, out, nfail, nbreak, hist>>
-View  == <<cfg, calls, q, cur, fly, ans, agg, done, res, sent, part, sst, emitted, wire, chn, gcl, fin, mrg, out, nfail, nbreak>>
+VARIABLES nfail, nbreak, nexp, hist,
+          mustT     \* Eager only: the request timeout has just been let pass - linger timers started by the
+                    \* batchers that were released meanwhile have fired too (real time is global)
+mvars == <<cfg, calls, q, cur, fly, ans, agg, done, res, sent, part, late, sst, emitted, wire, chn, gcl, fin, mrg, out, nfail, nbreak, nexp, mustT, hist>>
+View  == <<cfg, calls, q, cur, fly, ans, agg, done, res, sent, part, late, sst, emitted, wire, chn, gcl, fin, mrg, out, nfail, nbreak, nexp, mustT>>
+cnts  == <<nfail, nbreak, nexp>>
 
-Configs == {c \in [n : NShardsSet, maxReq : ReqLimits, maxBytes : ByteLimits, linger : Lingers, dead : DeadSets] :
+Configs == {c \in [n : NShardsSet, maxReq : ReqLimits, maxBytes : ByteLimits, linger : Lingers, dead : DeadSets, tmo : Tmos] :
                 c.dead \subseteq 1..c.n}
 
 MInit == /\ \E c0 \in Configs : Init(c0)
-         /\ nfail = 0 /\ nbreak = 0 /\ hist = <<>>
+         /\ nfail = 0 /\ nbreak = 0 /\ nexp = 0 /\ mustT = FALSE /\ hist = <<>>
 
 \* a template can be issued on this cluster: its shard exists, batched calls avoid dead leaders
 \* (their retries would only end with the request timeout)
@@ -36,8 +40,8 @@ Allowed(t) == /\ (~Fanout(t) => t.sh \in Shards)
               /\ (KindOf(t) # "s" => Targets(t) \cap cfg.dead = {})
 
 \* observable state: requests the servers hold unanswered, completions, delivered items
-ObsNow  == [fly |-> fly, done |-> done, res |-> res, out |-> out, sent |-> sent]
-ObsNext == [fly |-> fly', done |-> done', res |-> res', out |-> out', sent |-> sent']
+ObsNow  == [fly |-> fly, done |-> done, res |-> res, out |-> out, sent |-> sent, late |-> late]
+ObsNext == [fly |-> fly', done |-> done', res |-> res', out |-> out', sent |-> sent', late |-> late']
 NoT == [op |-> "", cmp |-> "", pk |-> FALSE, sh |-> 0, size |-> 0, tbl |-> 0]
 \* environment steps carry the observable state *before* the step (in Eager mode a quiescent state the
 \* replayer can wait for); client-internal steps are recorded by name only
@@ -46,10 +50,10 @@ Log(a, c, s, k, t, key, how) ==
 LogN(a, s, k, n) ==
     hist' = Append(hist, [a |-> a, c |-> 0, s |-> s, k |-> k, t |-> NoT, key |-> <<>>, how |-> "", n |-> n, pre |-> ObsNow])
 LogI(a, c, s, k) == hist' = Append(hist, [a |-> a, c |-> c, s |-> s, k |-> k])
-CfgRec == [n |-> cfg.n, maxReq |-> cfg.maxReq, maxBytes |-> cfg.maxBytes, linger |-> cfg.linger, dead |-> cfg.dead]
+CfgRec == [n |-> cfg.n, maxReq |-> cfg.maxReq, maxBytes |-> cfg.maxBytes, linger |-> cfg.linger, dead |-> cfg.dead, tmo |-> cfg.tmo]
 
 MInternal ==
-    /\ UNCHANGED <<nfail, nbreak>>
+    /\ UNCHANGED cnts
     /\ \/ \E s \in Shards, k \in Kinds : Take(s, k) /\ LogI("Take", 0, s, k)
        \/ \E c \in CallIds :
             \/ \E s \in Shards : Fwd(c, s) /\ LogI("Fwd", c, s, "")
@@ -57,29 +61,48 @@ MInternal ==
             \/ MTake(c) /\ LogI("MTake", c, 0, "")
             \/ MPop(c) /\ LogI("MPop", c, 0, "")
 
+MTimer ==
+    /\ IF Eager THEN TimerAll /\ Log("Timer", 0, 0, "", NoT, <<>>, "")
+                ELSE \E s \in Shards, k \in Kinds : Timer(s, k) /\ Log("Timer", 0, s, k, NoT, <<>>, "")
+    /\ UNCHANGED cnts
+
+MExpire ==
+    /\ nexp < MaxExpire /\ (Eager => ~TimerAllEn)
+    /\ IF Eager THEN ExpireAll /\ Log("Expire", 0, 0, "", NoT, <<>>, "")
+                ELSE \E s \in Shards, k \in Kinds : Expire(s, k) /\ Log("Expire", 0, s, k, NoT, <<>>, "")
+    /\ nexp' = nexp + 1 /\ UNCHANGED <<nfail, nbreak>>
+
 MEnv ==
     \/ /\ Len(calls) < MaxCalls
        /\ \E t \in Templates : Allowed(t) /\ Issue(t) /\ Log("Issue", Len(calls) + 1, 0, "", t, <<>>, "")
-       /\ UNCHANGED <<nfail, nbreak>>
-    \/ /\ IF Eager THEN TimerAll /\ Log("Timer", 0, 0, "", NoT, <<>>, "")
-                   ELSE \E s \in Shards, k \in Kinds : Timer(s, k) /\ Log("Timer", 0, s, k, NoT, <<>>, "")
-       /\ UNCHANGED <<nfail, nbreak>>
+       /\ UNCHANGED cnts
+    \/ MTimer
     \/ \E s \in Shards, k \in Kinds :
-         \/ Respond(s, k) /\ Log("Respond", 0, s, k, NoT, <<>>, "") /\ UNCHANGED <<nfail, nbreak>>
-         \/ nfail < MaxFail /\ Fail(s, k) /\ Log("Fail", 0, s, k, NoT, <<>>, "") /\ nfail' = nfail + 1 /\ UNCHANGED nbreak
+         \/ Respond(s, k) /\ Log("Respond", 0, s, k, NoT, <<>>, "") /\ UNCHANGED cnts
+         \/ nfail < MaxFail /\ Fail(s, k) /\ Log("Fail", 0, s, k, NoT, <<>>, "") /\ nfail' = nfail + 1 /\ UNCHANGED <<nbreak, nexp>>
          \* a retried request comes back after a real-time backoff: the replay generator lets that happen only
          \* while no linger timer is running (it would expire meanwhile)
          \/ /\ nbreak < MaxBreak /\ (Eager => ~TimerAllEn)
             /\ \E n \in 0..Len(fly[s][k]) : Break(s, k, n) /\ LogN("Break", s, k, n)
-            /\ nbreak' = nbreak + 1 /\ UNCHANGED nfail
+            /\ nbreak' = nbreak + 1 /\ UNCHANGED <<nfail, nexp>>
+    \/ \E s \in Shards :
+         \/ RespondLate(s) /\ Log("RespondLate", 0, s, "w", NoT, <<>>, "") /\ UNCHANGED cnts
+         \/ ~Eager /\ nfail < MaxFail /\ DropLate(s) /\ Log("DropLate", 0, s, "w", NoT, <<>>, "")
+            /\ nfail' = nfail + 1 /\ UNCHANGED <<nbreak, nexp>>
     \/ \E c \in CallIds, s \in Shards :
          \/ /\ Len(emitted[c][s]) < MaxStream
             /\ \E i \in 1..NKeys : SrvEmit(c, s, KeyList[i]) /\ Log("SEmit", c, s, "", NoT, KeyList[i], "")
-            /\ UNCHANGED <<nfail, nbreak>>
-         \/ SrvEnd(c, s, "eof") /\ Log("SEnd", c, s, "", NoT, <<>>, "eof") /\ UNCHANGED <<nfail, nbreak>>
-         \/ nfail < MaxFail /\ SrvEnd(c, s, "err") /\ Log("SEnd", c, s, "", NoT, <<>>, "err") /\ nfail' = nfail + 1 /\ UNCHANGED nbreak
+            /\ UNCHANGED cnts
+         \/ SrvEnd(c, s, "eof") /\ Log("SEnd", c, s, "", NoT, <<>>, "eof") /\ UNCHANGED cnts
+         \/ nfail < MaxFail /\ SrvEnd(c, s, "err") /\ Log("SEnd", c, s, "", NoT, <<>>, "err") /\ nfail' = nfail + 1 /\ UNCHANGED <<nbreak, nexp>>
 
-MNext == IF Eager /\ InternalEn THEN MInternal ELSE (MInternal \/ MEnv)
+\* The request timeout is real time as well: the replay generator lets it pass only while no linger timer is
+\* running; then every request in flight expires (each at its own moment, the batchers go on in between), and
+\* the linger timers those batchers start fire before anything else can be done (Timer is forced next).
+MNext == IF Eager /\ InternalEn THEN MInternal /\ UNCHANGED mustT
+         ELSE IF Eager /\ mustT /\ TimerAllEn THEN MTimer /\ mustT' = FALSE
+         ELSE \/ (MInternal \/ MEnv) /\ mustT' = FALSE
+              \/ MExpire /\ mustT' = Eager
 
 MSpec == MInit /\ [][MNext]_mvars
 
@@ -102,13 +125,18 @@ TRetry == { T("get", "EQ", FALSE, 1, 0, 0), T("get", "EQ", TRUE, 1, 0, 0), T("ge
             T("get", "FLOOR", FALSE, 0, 0, 1) }
 TStream == { T("list", "EQ", TRUE, 1, 0, 0), T("list", "EQ", FALSE, 0, 0, 0),
              T("scan", "EQ", TRUE, 1, 0, 0), T("scan", "EQ", TRUE, 2, 0, 0), T("scan", "EQ", FALSE, 0, 0, 0) }
+\* writes on one shard (results all different), a second shard and a fan-out delete-range: the requests whose
+\* client-side wait times out while the write stream lives on
+TExpire == { T("put", "EQ", FALSE, 1, 10, 0), T("put", "EQ", TRUE, 1, 10, 0), T("del", "EQ", FALSE, 1, 8, 0),
+             T("put", "EQ", TRUE, 2, 10, 0), T("delrange", "EQ", FALSE, 0, 16, 0) }
+TExpireSmall == { T("put", "EQ", FALSE, 1, 10, 0), T("del", "EQ", FALSE, 1, 8, 0), T("delrange", "EQ", FALSE, 0, 16, 0) }
 TMixed == { T("put", "EQ", FALSE, 1, 10, 0), T("del", "EQ", TRUE, 2, 8, 0), T("delrange", "EQ", FALSE, 0, 16, 0),
             T("get", "EQ", FALSE, 1, 0, 0), T("get", "FLOOR", FALSE, 0, 0, 1), T("get", "CEILING", FALSE, 0, 0, 2),
             T("list", "EQ", FALSE, 0, 0, 0), T("scan", "EQ", FALSE, 0, 0, 0), T("scan", "EQ", TRUE, 1, 0, 0) }
 
 \* one behaviour per transition of the bounded graph that ends in a state where the client is quiescent
 \* (the transitions in between are its inner steps)
-ExportSteps == (Export = "steps" /\ ~InternalEn') => PrintT(<<"STEP", ToJson([cfg |-> CfgRec, steps |-> hist', post |-> ObsNext])>>)
+ExportSteps == (Export = "steps" /\ ~InternalEn' /\ ~(mustT' /\ TimerAllEn')) => PrintT(<<"STEP", ToJson([cfg |-> CfgRec, steps |-> hist', post |-> ObsNext])>>)
 \* a finished run: nothing enabled but (maybe) Issue, which is exhausted
 RunOver == Len(calls) = MaxCalls /\ Stable
 ExportRuns  == (Export = "runs" /\ RunOver) => PrintT(<<"RUN", ToJson([cfg |-> CfgRec, steps |-> hist, post |-> ObsNow])>>)
